@@ -17,6 +17,8 @@ use std::process::{Child, Command, Stdio};
 use std::sync::mpsc;
 use std::time::{Duration, Instant};
 use verif_harness::util::*;
+#[path = "../c11/fields.rs"]
+mod fields;
 
 const IMPORT_ALL: &str = "import \"pe\" import \"elf\" import \"macho\" import \"dotnet\" import \"lnk\" import \"dex\" import \"crx\" import \"olecf\" import \"msi\" import \"vba\" import \"zip\" import \"hash\" import \"math\"\nrule always { condition: true }\nrule pe_ep { condition: pe.is_pe and pe.entry_point >= 0 }\nrule elf_n { condition: elf.number_of_sections >= 0 }\nrule zip_n { condition: zip.is_zip and for any e in zip.entries : (e.uncompressed_size >= 0) }\n";
 
@@ -39,6 +41,37 @@ fn child() -> i32 {
         let mut hdr = String::new();
         if inp.read_line(&mut hdr).unwrap_or(0) == 0 { return 0; }
         let f: Vec<&str> = hdr.trim().split(' ').collect();
+        if f.len() == 4 && f[0] == "SWEEP" {
+            // SWEEP idx len nmut, the carrier, then nmut lines `off width big_endian value` (width 0: the carrier as it is).
+            // One invocation per mutation under `catch`; only failures are reported one by one.
+            let (idx, len, nmut): (usize, usize, usize) = (f[1].parse().unwrap(), f[2].parse().unwrap(), f[3].parse().unwrap());
+            let mut data = vec![0u8; len];
+            inp.read_exact(&mut data).unwrap();
+            let mut muts: Vec<(usize, usize, bool, u64)> = Vec::with_capacity(nmut);
+            for _ in 0..nmut { let mut l = String::new(); inp.read_line(&mut l).unwrap(); let g: Vec<&str> = l.trim().split(' ').collect();
+                muts.push((g[0].parse().unwrap(), g[1].parse().unwrap(), g[2] == "1", g[3].parse().unwrap())); }
+            let rss0 = hwm_kb().max(rss_kb());
+            let bound_us = 4_000_000 + 60 * len as u128;
+            let (mut n_panic, mut n_slow, mut max_us) = (0usize, 0usize, 0u128);
+            let mut o = out.lock();
+            for (k, (off, w, be, val)) in muts.iter().enumerate() {
+                writeln!(o, "AT {} {}", idx, k).unwrap(); o.flush().unwrap();
+                let saved: Vec<u8> = data[*off..*off + *w].to_vec();
+                if *w > 0 { fields::wr(&mut data, *off, *w, *be, *val); }
+                let t = Instant::now();
+                let r = catch(AssertUnwindSafe(|| { let m = yara_x::mods::invoke_all(&data); drop(m); }));
+                let us = t.elapsed().as_micros();
+                data[*off..*off + *w].copy_from_slice(&saved);
+                max_us = max_us.max(us);
+                match r {
+                    Ok(()) => { if us > bound_us { n_slow += 1; writeln!(o, "SWFAIL {} {} slow {}", idx, k, us).unwrap(); } }
+                    Err(p) => { n_panic += 1; if n_panic <= 40 { writeln!(o, "SWFAIL {} {} panic {}", idx, k, p.lines().next().unwrap_or("").replace(' ', "_")).unwrap(); } }
+                }
+            }
+            writeln!(o, "SWEND {} {} {} {} {} {}", idx, muts.len(), n_panic, n_slow, max_us, hwm_kb().max(rss_kb()).saturating_sub(rss0)).unwrap();
+            o.flush().unwrap();
+            continue;
+        }
         if f.len() != 2 { return 0; }
         let (idx, len): (usize, usize) = (f[0].parse().unwrap(), f[1].parse().unwrap());
         let mut data = vec![0u8; len];
@@ -448,6 +481,137 @@ fn run_one(kid: &mut Option<Kid>, idx: usize, data: &[u8], limit: Duration) -> R
     }
 }
 
+
+// ---------------------------------------------------------------- boundary sweeps
+/// one mutation of a carrier: the field at `off` (width `w`) set to `val`; w = 0 is the carrier itself
+struct Mutn { off: usize, w: usize, be: bool, val: u64, what: String }
+struct Carrier { label: String, fmt: String, mode: &'static str, data: std::sync::Arc<Vec<u8>>, muts: Vec<Mutn> }
+#[derive(Default)]
+struct SweepRes { done: usize, fails: Vec<(usize, String, String)>, max_us: u128, rss_kb: u64 }
+
+fn run_sweep(kid: &mut Option<Kid>, idx: usize, c: &Carrier, limit: Duration) -> SweepRes {
+    let mut res = SweepRes::default();
+    let mut from = 0usize;
+    while from < c.muts.len() {
+        if kid.is_none() { *kid = Some(spawn_kid()); }
+        let k = kid.as_mut().unwrap();
+        let part = &c.muts[from..];
+        let mut msg = format!("SWEEP {} {} {}\n", idx, c.data.len(), part.len()).into_bytes();
+        msg.extend_from_slice(&c.data);
+        for m in part { msg.extend_from_slice(format!("{} {} {} {}\n", m.off, m.w, m.be as u8, m.val).as_bytes()); }
+        // written from a thread: the child answers while it is still reading
+        let mut si = k.child.stdin.take().unwrap();
+        let wt = std::thread::spawn(move || { let r = si.write_all(&msg).and_then(|_| si.flush()); (si, r) });
+        let mut at = 0usize; let mut ended = false; let mut broke: Option<&str> = None;
+        loop {
+            match k.rx.recv_timeout(limit) {
+                Ok(l) => {
+                    let f: Vec<&str> = l.split(' ').collect();
+                    if f[0] == "AT" && f.len() == 3 { at = f[2].parse().unwrap_or(at); }
+                    else if f[0] == "SWFAIL" && f.len() >= 5 { res.fails.push((from + f[2].parse::<usize>().unwrap_or(0), f[3].to_string(), f[4..].join(" "))); }
+                    else if f[0] == "SWEND" && f.len() >= 7 { res.max_us = res.max_us.max(f[5].parse().unwrap_or(0)); res.rss_kb = res.rss_kb.max(f[6].parse().unwrap_or(0)); ended = true; break; }
+                }
+                Err(mpsc::RecvTimeoutError::Timeout) => { broke = Some("timeout"); break; }
+                Err(mpsc::RecvTimeoutError::Disconnected) => { broke = Some("crash"); break; }
+            }
+        }
+        if ended {
+            if let Ok((si, _)) = wt.join() { k.child.stdin = Some(si); }
+            res.done = c.muts.len();
+            if res.rss_kb > 128 * 1024 { drop(k.child.stdin.take()); let _ = k.child.wait(); *kid = None; }
+            break;
+        }
+        // the child hangs or died in mutation `at`: record it, replace the child, go on with the rest
+        let _ = k.child.kill(); let _ = k.child.wait(); let _ = wt.join(); *kid = None;
+        res.fails.push((from + at, broke.unwrap_or("crash").to_string(), String::new()));
+        from += at + 1; res.done = from;
+    }
+    res
+}
+
+/// a small archive made here: two stored members, an extra field, comments
+fn synth_zip() -> Vec<u8> {
+    let mut d = vec![]; let mut cd = vec![]; let mut n = 0u16;
+    for (name, body, extra) in [(&b"a.txt"[..], &b"hello world"[..], &[0x55u8, 0x54, 5, 0, 1, 0, 0, 0, 0][..]), (&b"dir/b.bin"[..], &[0u8, 1, 2, 3, 4, 5, 6, 7][..], &[][..])] {
+        let lho = d.len() as u32;
+        d.extend_from_slice(b"PK\x03\x04"); for v in [20u16, 0, 0, 0x6000, 0x5821] { d.extend_from_slice(&v.to_le_bytes()); }
+        for v in [0x1234_5678u32, body.len() as u32, body.len() as u32] { d.extend_from_slice(&v.to_le_bytes()); }
+        d.extend_from_slice(&(name.len() as u16).to_le_bytes()); d.extend_from_slice(&(extra.len() as u16).to_le_bytes());
+        d.extend_from_slice(name); d.extend_from_slice(extra); d.extend_from_slice(body);
+        cd.extend_from_slice(b"PK\x01\x02"); for v in [0x031eu16, 20, 0, 0, 0x6000, 0x5821] { cd.extend_from_slice(&v.to_le_bytes()); }
+        for v in [0x1234_5678u32, body.len() as u32, body.len() as u32] { cd.extend_from_slice(&v.to_le_bytes()); }
+        for v in [name.len() as u16, extra.len() as u16, 2, 0, 0] { cd.extend_from_slice(&v.to_le_bytes()); }
+        cd.extend_from_slice(&0x81a4_0000u32.to_le_bytes()); cd.extend_from_slice(&lho.to_le_bytes());
+        cd.extend_from_slice(name); cd.extend_from_slice(extra); cd.extend_from_slice(b"cm");
+        n += 1;
+    }
+    let cdo = d.len() as u32; d.extend_from_slice(&cd);
+    d.extend_from_slice(b"PK\x05\x06"); for v in [0u16, 0, n, n] { d.extend_from_slice(&v.to_le_bytes()); }
+    d.extend_from_slice(&(cd.len() as u32).to_le_bytes()); d.extend_from_slice(&cdo.to_le_bytes()); d.extend_from_slice(&7u16.to_le_bytes()); d.extend_from_slice(b"archive");
+    d
+}
+
+/// carriers for the boundary sweeps.  `all`: every repository sample as it is (time and memory bound on the
+/// samples themselves).  `structured`: per format, samples chosen so that every kind of field the readers of
+/// c11/fields.rs know is present in at least one of them; every such field is set to every boundary value.
+/// `exhaustive`: small samples, every offset as u16 and u32.
+fn build_carriers(all: &[(String, Vec<u8>)], rng: &mut Rng, per_dir: usize, small: usize, budget: usize) -> Vec<Carrier> {
+    let mut v: Vec<Carrier> = vec![];
+    let mut samples: Vec<(String, std::sync::Arc<Vec<u8>>)> = all.iter().map(|(n, d)| (n.clone(), std::sync::Arc::new(d.clone()))).collect();
+    samples.push(("synthetic/zip".to_string(), std::sync::Arc::new(synth_zip())));
+    for (n, d) in &samples { v.push(Carrier { label: n.clone(), fmt: "any".into(), mode: "sample", data: d.clone(), muts: vec![Mutn { off: 0, w: 0, be: false, val: 0, what: "unmodified".into() }] }); }
+    // structured: greedy cover of the field kinds per directory, smallest samples first
+    let mut by_dir: std::collections::BTreeMap<String, Vec<usize>> = Default::default();
+    for (i, (n, _)) in samples.iter().enumerate() { by_dir.entry(n.split('/').next().unwrap_or("").to_string()).or_default().push(i); }
+    let mut structured: Vec<Carrier> = vec![];
+    for (_dir, mut ix) in by_dir {
+        ix.sort_by_key(|i| samples[*i].1.len());
+        let mut covered: std::collections::HashSet<String> = Default::default(); let mut taken = 0;
+        for i in ix {
+            let (n, d) = &samples[i];
+            if d.len() > 600_000 || taken >= per_dir { continue; }
+            let found = fields::find(d);
+            let news: Vec<&fields::Field> = found.fields.iter().filter(|f| !covered.contains(&f.what)).collect();
+            if news.is_empty() { continue; }
+            // a first carrier gets all its fields, later ones only the kinds of field not seen yet
+            let use_all = taken == 0;
+            let mut muts = vec![];
+            for f in found.fields.iter().filter(|f| use_all || !covered.contains(&f.what)) {
+                let cur = fields::rd(d, f.off, f.w as usize, f.be).unwrap_or(0);
+                for val in fields::values(f, cur, d.len(), &found.dict, f.hot) { muts.push(Mutn { off: f.off, w: f.w as usize, be: f.be, val, what: f.what.clone() }); }
+            }
+            for f in &found.fields { covered.insert(f.what.clone()); }
+            structured.push(Carrier { label: n.clone(), fmt: found.fmt.to_string(), mode: "structured", data: d.clone(), muts });
+            taken += 1;
+        }
+    }
+    // exhaustive: every offset of the small samples
+    let mut exhaustive: Vec<Carrier> = vec![];
+    for (n, d) in samples.iter().filter(|(_, d)| d.len() >= 16 && d.len() <= small) {
+        let fmt = fields::find(d).fmt.to_string();
+        let mut muts = vec![];
+        for off in 0..d.len() {
+            for w in [2usize, 4] {
+                if off + w > d.len() { continue; }
+                let f = fields::Field { off, w: w as u8, be: false, what: format!("offset.u{}", 8 * w), hot: false };
+                let cur = fields::rd(d, off, w, false).unwrap_or(0);
+                for val in fields::values(&f, cur, d.len(), &[], false) { muts.push(Mutn { off, w, be: false, val, what: f.what.clone() }); }
+            }
+        }
+        exhaustive.push(Carrier { label: n.clone(), fmt, mode: "exhaustive", data: d.clone(), muts });
+    }
+    // the budget: structured mutations are all kept unless they alone exceed it; the exhaustive ones are sampled
+    let ns: usize = structured.iter().map(|c| c.muts.len()).sum();
+    let ne: usize = exhaustive.iter().map(|c| c.muts.len()).sum();
+    if budget > 0 {
+        if ns > budget * 3 / 4 { let keep = (budget * 3 / 4) as u64; for c in structured.iter_mut() { c.muts.retain(|_| rng.below(ns as u64) < keep); } }
+        let left = budget.saturating_sub(structured.iter().map(|c| c.muts.len()).sum::<usize>()) as u64;
+        if (ne as u64) > left { for c in exhaustive.iter_mut() { c.muts.retain(|_| rng.below(ne as u64) < left); } }
+    }
+    v.extend(structured); v.extend(exhaustive);
+    v
+}
+
 // ---------------------------------------------------------------- arithmetic cores through the hook
 fn enc_uleb(mut n: u64) -> Vec<u8> { let mut v = vec![]; loop { let b = (n & 0x7f) as u8; n >>= 7; if n == 0 { v.push(b); break; } v.push(b | 0x80); } v }
 fn enc_sleb(mut n: i64) -> Vec<u8> { let mut v = vec![]; loop { let b = (n & 0x7f) as u8; n >>= 7; if (n == 0 && b & 0x40 == 0) || (n == -1 && b & 0x40 != 0) { v.push(b); break; } v.push(b | 0x80); } v }
@@ -610,6 +774,50 @@ fn run(args: &[String]) -> i32 {
                 shards.push(case, rj);
             }
         }
+    }
+    // boundary sweeps (own PRNG stream, so that the corpus above does not depend on the sweep options)
+    let sweep_budget = arg_u64(args, "--sweep-budget", 40_000) as usize;
+    if sweep_budget > 0 {
+        let mut srng = Rng::new(seed ^ 0x5eed_5eed);
+        let every = read_samples(Path::new(&sdir), usize::MAX, usize::MAX, &mut srng);
+        let carriers = build_carriers(&every, &mut srng, arg_u64(args, "--sweep-per-dir", 3) as usize, arg_u64(args, "--sweep-small", 1200) as usize, sweep_budget);
+        let t_sweeps = Instant::now();
+        for (ci, c) in carriers.iter().enumerate() {
+            let idx = corpus.len() + ci;
+            if c.muts.is_empty() { continue; }
+            let r = run_sweep(&mut kid, idx, c, Duration::from_millis(limit_ms));
+            let n = c.muts.len();
+            stats.add(&format!("sweep:{}:mutations", c.mode), n as u64);
+            stats.inc(&format!("sweep:{}:carriers", c.mode));
+            if c.mode != "sample" { stats.add(&format!("sweep:format:{}", c.fmt), n as u64); }
+            // the repository samples themselves: a tighter bound than for arbitrary bytes
+            let bound_us: u128 = if c.mode == "sample" { 2_000_000 + 20 * c.data.len() as u128 } else { 4_000_000 + 60 * c.data.len() as u128 };
+            let bound_kb: u64 = 256 * 1024 + (256 * c.data.len() as u64) / 1024;
+            let mut fails = r.fails.clone();
+            if fails.is_empty() && r.max_us > bound_us { fails.push((0, "slow".into(), format!("{}", r.max_us))); }
+            if fails.is_empty() && r.rss_kb > bound_kb { fails.push((0, "memory".into(), format!("{}", r.rss_kb))); }
+            let n_bad = fails.len().min(n);
+            distinct.insert(fnv64(c.label.as_bytes()) ^ n as u64);
+            let first = fails.first().map(|(k, kind, det)| { let m = &c.muts[(*k).min(n - 1)]; format!("{}@{:#x}/{}={:#x} {} {}", m.what, m.off, m.w, m.val, kind, det) }).unwrap_or_default();
+            shards.push(format!("KSweep {} {} {}", coq_z(n as i128), coq_z(r.done as i128), coq_z((n - n_bad) as i128)),
+                format!("{{\"kind\":\"sweep\",\"index\":{},\"label\":{},\"mode\":\"{}\",\"format\":\"{}\",\"len\":{},\"mutations\":{},\"failures\":{},\"first_failure\":{},\"max_us\":{},\"bound_us\":{},\"rss_growth_kb\":{}}}",
+                    idx, json_str(&c.label), c.mode, c.fmt, c.data.len(), n, fails.len(), json_str(&first), r.max_us, bound_us, r.rss_kb));
+            // every failing mutation is a case of its own (the input is kept)
+            let mut kinds = std::collections::HashSet::new();
+            for (k, kind, det) in fails.iter() {
+                let m = &c.muts[(*k).min(n - 1)];
+                stats.inc(&format!("sweep:fail:{}", kind));
+                if !kinds.insert(format!("{}:{}", m.what, kind)) || kinds.len() > 12 { continue; }
+                let mut d = (*c.data).clone(); if m.w > 0 { fields::wr(&mut d, m.off, m.w, m.be, m.val); }
+                let fidx = idx * 1000 + kinds.len();
+                let _ = std::fs::write(Path::new(&out_dir).join(format!("failing_{}.bin", fidx)), &d);
+                let class = if c.mode == "sample" { "repository-sample".to_string() } else { format!("boundary:{}:{}", c.fmt, m.what) };
+                shards.push(format!("KRun {} true {}", coq_bool(kind == "slow" || kind == "memory"), coq_bool(kind != "slow" && kind != "memory")),
+                    format!("{{\"kind\":\"run\",\"index\":{},\"label\":{},\"class\":\"{}\",\"len\":{},\"status\":\"{}\",\"fail\":\"{}\",\"field\":\"{}\",\"offset\":{},\"width\":{},\"big_endian\":{},\"value\":{},\"detail\":{},\"data_hex_prefix\":\"{}\"}}",
+                        fidx, json_str(&format!("{}|{}@{:#x}/{}={:#x}", c.label, m.what, m.off, m.w, m.val)), class, d.len(), kind, kind, m.what, m.off, m.w, m.be, m.val, json_str(det), hex(&d[..d.len().min(64)])));
+            }
+        }
+        stats.add("sweep:wall_ms", t_sweeps.elapsed().as_millis() as u64);
     }
     core_cases(&mut rng, n_cores, &mut shards, &mut stats);
     shards.flush();
